@@ -13,9 +13,9 @@ def LInv (opp : Array (Option Nat)) (ctv : Array Nat) : Prop :=
   ∀ a b, swingRightA opp a = some b → vget ctv a = vget ctv b
 
 theorem markL_ctv_false (v : Nat) (st : VCState) (act : Nat) : (markL v false st act).ctv = st.ctv := by
-  simp [markL]
+  simp [markL_eq]
 theorem markR_ctv_false (v : Nat) (st : VCState) (act : Nat) : (markR v false st act).ctv = st.ctv := by
-  simp [markR]
+  simp [markR_eq]
 
 theorem cvcLeft_ctv_false (opp : Array (Option Nat)) (c v : Nat) :
     ∀ (fuel act : Nat) (st : VCState), (cvcLeft opp c v false fuel act st).1.ctv = st.ctv := by
@@ -48,23 +48,23 @@ variable {n : Nat} {opp : Array (Option Nat)}
 
 theorem markL_ctv_true (v : Nat) (st : VCState) (act x : Nat) (hact : act < st.ctv.size) :
     vget (markL v true st act).ctv x = if act = x then v else vget st.ctv x := by
-  simp only [markL, if_true]
+  simp only [markL_eq, if_true]
   rw [vget_set]
   simp [hact]
 
 theorem markR_ctv_true (v : Nat) (st : VCState) (act x : Nat) (hact : act < st.ctv.size) :
     vget (markR v true st act).ctv x = if act = x then v else vget st.ctv x := by
-  simp only [markR, if_true]
+  simp only [markR_eq, if_true]
   rw [vget_set]
   simp [hact]
 
 theorem markL_ctv_size (v : Nat) (nm : Bool) (st : VCState) (act : Nat) :
     (markL v nm st act).ctv.size = st.ctv.size := by
-  simp only [markL]; split <;> simp [Array.size_setIfInBounds]
+  simp only [markL_eq]; split <;> simp [Array.size_setIfInBounds]
 
 theorem markR_ctv_size (v : Nat) (nm : Bool) (st : VCState) (act : Nat) :
     (markR v nm st act).ctv.size = st.ctv.size := by
-  simp only [markR]; split <;> simp [Array.size_setIfInBounds]
+  simp only [markR_eq]; split <;> simp [Array.size_setIfInBounds]
 
 /-- precondition of the swing-left walk before marking `act` (relabelling case) -/
 structure PreL (opp : Array (Option Nat)) (c v : Nat) (ctv : Array Nat) (act : Nat) : Prop where
